@@ -24,6 +24,7 @@ import (
 	"crypto/sha256"
 	"encoding/hex"
 	"fmt"
+	"hash/fnv"
 	"math"
 	"net"
 	"os"
@@ -222,6 +223,9 @@ type rig struct {
 	jobs    map[int]*pendingJob
 	fresh   atomic.Int64
 	elim    map[string]*rate.Limiter // question name -> the entry limiter the cache charges
+	elimQ   []string                 // those names, in order of first use
+	names   map[string]string        // model question -> name of this rig
+	slots   map[*rate.Limiter]bool   // pool slots taken by this rig's names
 	elimOrg map[*rate.Limiter]rate.Limit
 
 	// gating of the scripted upstream
@@ -234,7 +238,7 @@ var rigSeq atomic.Int64
 
 func newRig(burst, storeCap, entryBurst int, clients, forms []string, book *cookieBook) (*rig, error) {
 	r := &rig{burst: burst, entryBurst: entryBurst, book: book, clients: clients, forms: forms,
-		hits: map[string]int{}, jobs: map[int]*pendingJob{}, elim: map[string]*rate.Limiter{}, elimOrg: map[*rate.Limiter]rate.Limit{},
+		hits: map[string]int{}, names: map[string]string{}, slots: map[*rate.Limiter]bool{}, jobs: map[int]*pendingJob{}, elim: map[string]*rate.Limiter{}, elimOrg: map[*rate.Limiter]rate.Limit{},
 		gates: map[string]chan struct{}{}, parked: make(chan string, 64)}
 	r.tag = fmt.Sprintf("r%d", rigSeq.Add(1))
 	r.period = time.Minute / time.Duration(burst)
@@ -289,9 +293,50 @@ func (r *rig) respond(_ context.Context, _ *middleware.Chain, req *dns.Msg) *dns
 	m := new(dns.Msg)
 	m.SetReply(req)
 	m.RecursionAvailable = true
-	rr, _ := dns.NewRR(req.Question[0].Name + " 300 IN A 192.0.2.9")
-	m.Answer = []dns.RR{rr}
+	m.Answer = upstreamAnswer(req.Question[0].Name)
 	return m
+}
+
+// isBig: names of the model's big class -- their answer (~90 A records, > 1232 bytes) fits no UDP client of the class.
+func isBig(name string) bool { return strings.HasPrefix(strings.ToLower(name), "big") }
+
+// upstreamAnswer is what the scripted upstream answers for a name: rdata = f(name).
+func upstreamAnswer(name string) []dns.RR {
+	h := fnv.New32a()
+	h.Write([]byte(strings.ToLower(name)))
+	v := h.Sum32()
+	n := 1
+	if isBig(name) {
+		n = 90
+	}
+	out := make([]dns.RR, 0, n)
+	for i := 0; i < n; i++ {
+		out = append(out, &dns.A{Hdr: dns.RR_Header{Name: name, Rrtype: dns.TypeA, Class: dns.ClassINET, Ttl: 300},
+			A: net.IPv4(10, byte(v>>16), byte(v>>8), byte(i+1)).To4()})
+	}
+	return out
+}
+
+// answerIsOwn: the answer section of a complete reply is the upstream's answer for the name asked, nothing else.
+func answerIsOwn(name string, m *dns.Msg) string {
+	want := upstreamAnswer(name)
+	if len(m.Answer) != len(want) {
+		return fmt.Sprintf("%d answer records, the upstream answered %d", len(m.Answer), len(want))
+	}
+	seen := map[string]bool{}
+	for _, rr := range m.Answer {
+		a, ok := rr.(*dns.A)
+		if !ok || !strings.EqualFold(a.Hdr.Name, name) {
+			return "answer record " + rr.String() + " is not for the question"
+		}
+		seen[a.A.String()] = true
+	}
+	for _, rr := range want {
+		if !seen[rr.(*dns.A).A.String()] {
+			return "answer lacks " + rr.String()
+		}
+	}
+	return ""
 }
 
 func (r *rig) release(name string) {
@@ -333,7 +378,27 @@ func (r *rig) qname(q string) string {
 	if q == "fresh" {
 		return fmt.Sprintf("f%d.%s.x06rl.test.", r.fresh.Add(1), r.tag)
 	}
-	return fmt.Sprintf("%s.%s.x06rl.test.", q, r.tag)
+	r.mu.Lock()
+	defer r.mu.Unlock()
+	if n, ok := r.names[q]; ok {
+		return n
+	}
+	// the per-entry limiters live in a process-wide pool of 997 slots keyed by the question's cache key: two
+	// questions of one rig must not share a slot, so a name is salted until its slot is unused by this rig
+	name := fmt.Sprintf("%s.%s.x06rl.test.", q, r.tag)
+	if r.entryBurst > 0 {
+		for salt := 1; salt < 50; salt++ {
+			key := cache.CacheKey{Question: dns.Question{Name: name, Qtype: dns.TypeA, Qclass: dns.ClassINET}}.Hash()
+			l := cache.VerifX06EntryLimiter(r.entryBurst, key)
+			if l == nil || !r.slots[l] {
+				r.slots[l] = true
+				break
+			}
+			name = fmt.Sprintf("%s.s%d%s.x06rl.test.", q, salt, r.tag)
+		}
+	}
+	r.names[q] = name
+	return name
 }
 
 // ---- the per-entry limiter of the cache (cfg.RateLimit) ------------------------------------
@@ -376,6 +441,7 @@ func (r *rig) entryLimiter(name string) (*rate.Limiter, string) {
 	l.SetLimitAt(now.Add(5*time.Second), org) // full
 	l.SetLimit(0)                             // frozen
 	r.elim[name] = l
+	r.elimQ = append(r.elimQ, name)
 	return l, bad
 }
 
@@ -398,16 +464,16 @@ func (r *rig) entryState(name string) (int, bool) {
 	return r.entryTokens(name), r.cache.VerifX06LimiterOf(key) != nil
 }
 
-// entrySummary: the tokens of the limiters of the model's (non-fresh) questions, by model name.
+// entrySummary: the tokens of the per-entry limiters in use, by the model's question name.
 func (r *rig) entrySummary() string {
 	if r.entryBurst <= 0 {
 		return ""
 	}
+	names := append([]string(nil), r.elimQ...)
+	sort.Strings(names)
 	s := ""
-	for _, q := range []string{"q1", "q2"} {
-		if t := r.entryTokens(r.qname(q)); t >= 0 {
-			s += fmt.Sprintf("%s=%d ", q, t)
-		}
+	for _, n := range names {
+		s += fmt.Sprintf("%s=%d ", n[:strings.Index(n, ".")], r.entryTokens(n))
 	}
 	return s
 }
@@ -512,7 +578,9 @@ func (r *rig) build(st step, seq int) *request {
 			&dns.EDNS0_LOCAL{Code: 65001, Data: []byte{0xde, 0xad, 0x01}},
 			&dns.EDNS0_PADDING{Padding: make([]byte, 5)})
 	}
-	if len(opts) > 0 || seq%2 == 0 {
+	// UDP clients of the big class speak plain DNS: no OPT, 512 bytes
+	plain := isBig(q.name) && st.Proto == "udp"
+	if !plain && (len(opts) > 0 || seq%2 == 0) {
 		o := &dns.OPT{Hdr: dns.RR_Header{Name: ".", Rrtype: dns.TypeOPT}}
 		q.advSize = []int{1232, 4096, 512, 900}[seq%4]
 		o.SetUDPSize(uint16(q.advSize))
@@ -542,6 +610,8 @@ type observation struct {
 	TailDelta int
 	WirePath  bool
 	Contract  []string // C06 predicates that are false on the reply
+	Foreign   string   // a complete NOERROR reply whose answer is not the upstream's answer for the question
+	TC        bool
 	Reply     []byte
 }
 
@@ -553,6 +623,8 @@ func (o observation) seen() string {
 		return "silent"
 	case o.Rcode == dns.RcodeBadCookie:
 		return "badcookie"
+	case o.Rcode == dns.RcodeSuccess && o.TC:
+		return "tc"
 	case o.Rcode == dns.RcodeSuccess:
 		return "answer"
 	}
@@ -674,6 +746,10 @@ func (r *rig) finishObs(o *observation, q *request, writes [][]byte, tailBefore 
 		return
 	}
 	o.Rcode = m.Rcode
+	o.TC = m.Truncated
+	if m.Rcode == dns.RcodeSuccess && !m.Truncated {
+		o.Foreign = answerIsOwn(q.name, m)
+	}
 	o.Contract = append(o.Contract, contract(q, m, len(o.Reply))...)
 	if opt := m.IsEdns0(); opt != nil {
 		for _, e := range opt.Option {
